@@ -30,8 +30,8 @@ os.environ["NUMBA_CACHE_DIR"] = env.numba_cache_dir("shared")
 PROPS = ("C01", "C02", "C03", "C04", "C05")
 QUICK_RUNS = {"C01": 96, "C02": 96, "C03": 80, "C04": 112, "C05": 96}
 THOROUGH_RUNS = {"C01": 1600, "C02": 1600, "C03": 1200, "C04": 1600, "C05": 1600}
-QUICK_FLEET = {}
-THOROUGH_FLEET = {}
+QUICK_FLEET = {"C01": 6, "C03": 8, "C04": 4}
+THOROUGH_FLEET = {"C01": 60, "C03": 90, "C04": 40}
 
 
 def main(argv=None):
